@@ -150,9 +150,10 @@ struct LeafBase
     {
         return leaf_dealloc(ID, "try_dealloc", p, {false, 1, size, align}, true);
     }
+    // small on purpose: user requests lie on both sides of it (the leaves themselves do not enforce it)
     std::size_t max_node_size() const noexcept
     {
-        return 100000;
+        return 48;
     }
     std::size_t max_alignment() const noexcept
     {
